@@ -61,7 +61,7 @@ pub fn run(ctx: &Ctx) -> Report {
         }
     }
     for (i, g) in all.into_iter().enumerate() {
-        if g.tables.iter().any(|t| *t == "m" || *t == "p" || *t == "q") || g.tables.iter().all(|t| *t == "ref") {
+        if g.tables.iter().any(|t| *t == "m" || *t == "p" || *t == "q" || *t == "nu") || g.tables.iter().all(|t| *t == "ref") {
             continue;
         }
         if i % step != 0 && i < n_hand {
